@@ -7,6 +7,7 @@ import (
 
 	"golang.org/x/tools/go/ssa"
 
+	"verif/internal/cong"
 	"verif/internal/flow"
 )
 
@@ -245,6 +246,8 @@ func (c *Ctx) c01Strides() {
 		case tf.PadConst == 0 && (strings.HasPrefix(name, "*") || strings.Contains(name, "Grouped")):
 			// containers of AVPs: sum of aligned Len()s, or raw grouped bytes
 			r.Ok("R4", key, c.fpos(padF), "container: Len() is a sum of aligned AVP lengths / raw group bytes, Padding() = 0")
+		case c.padOfSameLen(c.methodOfRaw(T, "Len"), padF):
+			r.Ok("R4", key, c.fpos(padF), "Padding() = round-up-4(L) − L where L is the very expression Len() returns (all values)")
 		case tf.PadWhy == "multi" || tf.LenDyn == "multi":
 			// multi-branch (Address): every branch pairs a length with round-up-4 of it
 			good := c.multiBranchAligned(lenF, padF)
@@ -694,4 +697,42 @@ func (c *Ctx) lenSum(v ssa.Value, depth int) (int64, ssa.Value, bool) {
 		}
 	}
 	return 0, nil, false
+}
+
+// padOfSameLen: Len() returns h(recv) for a method h, and Padding() returns P(h(recv)) where P is, for all
+// arguments, the distance to the next multiple of four: then Len()+Padding() ≡ 0 mod 4 for every value.
+func (c *Ctx) padOfSameLen(lenF, padF *ssa.Function) bool {
+	if lenF == nil || padF == nil || len(lenF.Params) != 1 || len(padF.Params) != 1 {
+		return false
+	}
+	lrv, prv := singleReturn(lenF), singleReturn(padF)
+	lc, ok := lrv.(*ssa.Call)
+	if !ok || prv == nil {
+		return false
+	}
+	h := flow.StaticCallee(lc)
+	if h == nil || h.Signature.Recv() == nil || len(lc.Call.Args) != 1 {
+		return false
+	}
+	isRecv := func(f *ssa.Function, a ssa.Value) bool {
+		a = flow.Peel(a)
+		return a == ssa.Value(f.Params[0]) || spilledParam(a) == f.Params[0]
+	}
+	if !isRecv(lenF, lc.Call.Args[0]) {
+		return false
+	}
+	env := &cong.Env{MaxDepth: 4,
+		IsSym: func(s ssa.Value) bool {
+			call, ok := s.(*ssa.Call)
+			return ok && flow.StaticCallee(call) == h && len(call.Call.Args) == 1 && isRecv(padF, call.Call.Args[0])
+		},
+		Callee: func(call *ssa.Call) *ssa.Function {
+			g := flow.StaticCallee(call)
+			if g == nil || g.Signature.Recv() != nil || !c.P.InModule(pkgOf(g)) {
+				return nil
+			}
+			return g
+		}}
+	cv, err := env.Eval(prv)
+	return err == nil && !cv.Div4 && cv.K == 0 && cv.T == [4]int64{0, 3, 2, 1}
 }
